@@ -134,7 +134,15 @@ def m_sqrt(x, numpy_semantics=False):
             return np_map(m_sqrt, x)
         if x < 0:
             raise PyRaise("ValueError", "math domain error (sqrt of a negative number)")
-        return math.sqrt(x)
+        r = math.sqrt(x)
+        if ctx.PATH is not None and ctx.PATH.ghost.get("_exact_roots", True) and isinstance(x, (int, float)) and float(x).is_integer() and r * r != x and abs(x) < 1e6:
+            # irrational square root of a small integer constant: keep it exact (symbolic) instead of a float approximation
+            xr = z3.RealVal(int(x))
+            st = uf("sqrt")(xr)
+            _assume(st >= 0)
+            _assume(st * st == xr)
+            return Sym(st, "r", meta=("sqrt", int(x)))
+        return r
     if bool(compare(x, 0, "<")):
         raise PyRaise("ValueError", "math domain error (sqrt of a negative number)")
     xr = as_real_term(x)
@@ -1076,7 +1084,7 @@ def make_externals(interp):
     math_attrs = {}
     register_model(math.floor, lambda interp, x: m_floor(x))
     register_model(math.ceil, lambda interp, x: to_int_ceil(x))
-    register_model(math.sqrt, lambda interp, x: m_sqrt(x))
+    register_model(math.sqrt, _always(lambda interp, x: m_sqrt(x)))
     register_model(math.exp, lambda interp, x: m_exp(x))
     register_model(math.log, lambda interp, x, base=None: m_log(x) if base is None else truediv(m_log(x), m_log(base)))
     register_model(math.fabs, lambda interp, x: abs(x))
@@ -1104,8 +1112,24 @@ def make_externals(interp):
 
     # ---- numpy
     install_numpy_models(interp)
+    PI = Sym(z3.Real("pi_const"), "r")
+
+    class _PiModule(LibModule):
+        """math / numpy with pi as a symbolic constant (3.14159 < pi < 3.1416), so that closed forms stay exact"""
+
+        def get(self, name):
+            if name == "pi":
+                if ctx.PATH is not None:
+                    key = "_pi_axiom"
+                    if key not in ctx.PATH.ghost:
+                        ctx.PATH.ghost[key] = True
+                        _assume(z3.And(PI.t > z3.RealVal("3.14159"), PI.t < z3.RealVal("3.1416")))
+                    return PI
+                return math.pi
+            return super().get(name)
+    E["math"] = _PiModule("math", math, math_attrs)
     np_attrs = {"float": Model(interp.builtins["float"].fn, "float", float)}
-    E["numpy"] = LibModule("numpy", np, np_attrs)
+    E["numpy"] = _PiModule("numpy", np, np_attrs)
     E["numpy.random"] = LibModule("numpy.random", np.random, {})
     E["numpy.linalg"] = LibModule("numpy.linalg", np.linalg, {})
 
@@ -1379,7 +1403,12 @@ def install_numpy_models(interp):
                 return np_map(fn, x)
             return fn(x)
         return f
-    register_model(np.sqrt, elementwise(m_sqrt))
+    def _np_sqrt(interp, x, *a, **k):
+        if isinstance(x, np.ndarray) and x.dtype != object:
+            with np.errstate(all="ignore"):
+                return np.sqrt(x)
+        return elementwise(m_sqrt)(interp, x)
+    register_model(np.sqrt, _always(_np_sqrt))
     register_model(np.exp, elementwise(m_exp))
     register_model(np.log, elementwise(m_log))
     register_model(np.abs, elementwise(abs))
